@@ -1,0 +1,39 @@
+//go:build verif
+// +build verif
+
+// Package verifhook holds test-harness hook points (build tag "verif": hooks are live).
+package verifhook
+
+import "sync"
+
+var (
+	mu      sync.RWMutex
+	yieldFn func(point string)
+	asyncWG sync.WaitGroup
+)
+
+// SetYield installs (or removes, with nil) the function called at every yield point.
+func SetYield(f func(point string)) {
+	mu.Lock()
+	yieldFn = f
+	mu.Unlock()
+}
+
+// Yield marks an atomic-step boundary of a lock protocol.
+func Yield(point string) {
+	mu.RLock()
+	f := yieldFn
+	mu.RUnlock()
+	if f != nil {
+		f(point)
+	}
+}
+
+// AsyncStart / AsyncDone bracket background work a harness may want to join.
+func AsyncStart() { asyncWG.Add(1) }
+
+// AsyncDone see AsyncStart.
+func AsyncDone() { asyncWG.Done() }
+
+// WaitAsync blocks until all bracketed background work has finished.
+func WaitAsync() { asyncWG.Wait() }
